@@ -4,6 +4,7 @@
 From Coq Require Import NArith ZArith List Bool Lia Permutation Sorted.
 From GV Require Import lib.Bytes model.SortKey model.SortSpec proofs.SortKeyProofs.
 Import ListNotations.
+Local Open Scope nat_scope.
 
 (* ---------- comparison triples ---------- *)
 
@@ -23,7 +24,8 @@ Definition ctrip (ab bc ac : comparison) : bool :=
   | _, _ => true
   end.
 
-Definition lexc (x y : comparison) : comparison := match x with Eq => y | c => c end.
+Definition lexc (x y : comparison) : comparison :=
+  match x with Eq => y | Lt => Lt | Gt => Gt end.
 
 Lemma ctrip_lexc x1 x2 x3 y1 y2 y3 :
   ctrip x1 x2 x3 = true -> ctrip y1 y2 y3 = true ->
@@ -146,15 +148,14 @@ Lemma col_cmp_ctrip c a b d :
   ctrip (col_cmp c a b) (col_cmp c b d) (col_cmp c a d) = true.
 Proof.
   intros Ha Hb Hd.
-  destruct (kval_null_dec a) as [Ea|Na]; destruct (kval_null_dec b) as [Eb|Nb];
-    destruct (kval_null_dec d) as [Ed|Nd].
-  8:{ rewrite !col_cmp_nonnull by assumption.
-      pose proof (val_cmp_ctrip (k_ty c) a b d Ha Hb Hd Na Nb Nd) as H.
-      destruct (k_desc c); [apply ctrip_opp|]; exact H. }
-  all: clear Ha Hb Hd; subst;
-    destruct a as [|x|sx|m1 d1 n1]; try congruence;
-    destruct b as [|y|sy|m2 d2 n2]; try congruence;
-    destruct d as [|z|sz|m3 d3 n3]; try congruence;
+  assert (NN : a <> KNull -> b <> KNull -> d <> KNull ->
+               ctrip (col_cmp c a b) (col_cmp c b d) (col_cmp c a d) = true).
+  { intros Na Nb Nd. rewrite !col_cmp_nonnull by assumption.
+    pose proof (val_cmp_ctrip (k_ty c) a b d Ha Hb Hd Na Nb Nd) as H.
+    destruct (k_desc c); [apply ctrip_opp|]; exact H. }
+  clear Ha Hb Hd.
+  destruct a as [|x|sx|m1 d1 n1]; destruct b as [|y|sy|m2 d2 n2];
+    destruct d as [|z|sz|m3 d3 n3]; try (apply NN; discriminate); clear NN;
     cbn [col_cmp]; destruct (k_nulls_first c); destruct (k_desc c);
     repeat match goal with
            | |- context [val_cmp ?t ?u ?v] => destruct (val_cmp t u v)
@@ -208,3 +209,387 @@ Theorem row_cmp_trans cs a b c : row_wf cs a -> row_wf cs b -> row_wf cs c ->
 Proof.
   intros Ha Hb Hc. split; [apply rle_trans|apply row_cmp_lt_trans]; assumption.
 Qed.
+
+(* ---------- 4. insertion sort ---------- *)
+
+Lemma sle_total cs a b : sle cs a b = true \/ sle cs b a = true.
+Proof. apply rle_total. Qed.
+
+Lemma sle_refl cs a : sle cs a a = true.
+Proof. apply rle_refl. Qed.
+
+Lemma sle_false_flip cs a b : sle cs a b = false -> sle cs b a = true.
+Proof. intros H. destruct (sle_total cs a b) as [H'|H']; [congruence|exact H']. Qed.
+
+Lemma insert_perm cs x l : Permutation (insert cs x l) (x :: l).
+Proof.
+  induction l as [|y l IH]; cbn [insert]; [apply Permutation_refl|].
+  destruct (sle cs x y); [apply Permutation_refl|].
+  eapply perm_trans; [apply perm_skip, IH|apply perm_swap].
+Qed.
+
+Theorem isort_perm : forall cs l, Permutation (isort cs l) l.
+Proof.
+  intros cs l. induction l as [|x l IH]; [apply perm_nil|].
+  change (isort cs (x :: l)) with (insert cs x (isort cs l)).
+  eapply perm_trans; [apply insert_perm|apply perm_skip, IH].
+Qed.
+
+Lemma insert_sorted cs x l : sortedb cs l = true -> sortedb cs (insert cs x l) = true.
+Proof.
+  induction l as [|y l IH]; intros Hs; [reflexivity|].
+  cbn [insert]. destruct (sle cs x y) eqn:Exy.
+  - change (sle cs x y && sortedb cs (y :: l) = true). rewrite Exy, Hs. reflexivity.
+  - pose proof (sle_false_flip cs x y Exy) as Eyx.
+    destruct l as [|z l].
+    + cbn [insert sortedb]. rewrite Eyx. reflexivity.
+    + cbn [sortedb] in Hs. apply andb_prop in Hs. destruct Hs as [Eyz Hs].
+      specialize (IH Hs). cbn [insert] in IH |- *.
+      destruct (sle cs x z).
+      * change (sle cs y x && sortedb cs (x :: z :: l) = true). rewrite Eyx, IH. reflexivity.
+      * change (sle cs y z && sortedb cs (z :: insert cs x l) = true). rewrite Eyz, IH. reflexivity.
+Qed.
+
+Theorem isort_sorted : forall cs l, sortedb cs (isort cs l) = true.
+Proof.
+  intros cs l. induction l as [|x l IH]; [reflexivity|].
+  change (isort cs (x :: l)) with (insert cs x (isort cs l)). apply insert_sorted, IH.
+Qed.
+
+(* ---------- 5. sortedb reflects Sorted ---------- *)
+
+Theorem sortedb_Sorted cs l :
+  sortedb cs l = true <-> Sorted (fun a b => sle cs a b = true) l.
+Proof.
+  induction l as [|x l IH]; [split; [constructor|reflexivity]|].
+  destruct l as [|y l].
+  - split; [intros _; repeat constructor|reflexivity].
+  - change (sortedb cs (x :: y :: l)) with (sle cs x y && sortedb cs (y :: l)). split.
+    + intros H. apply andb_prop in H. destruct H as [Hxy Hs].
+      constructor; [apply IH, Hs|constructor; exact Hxy].
+    + intros H. inversion H as [|x' l' Hs Hhd]; subst. inversion Hhd as [|y' l'' Hxy]; subst.
+      rewrite Hxy. apply IH in Hs. rewrite Hs. reflexivity.
+Qed.
+
+(* ---------- 6. the multiset check ---------- *)
+
+Lemma bytes_eqb_eq a : forall b, bytes_eqb a b = true -> a = b.
+Proof.
+  induction a as [|x a IH]; intros [|y b] H; cbn [bytes_eqb] in H; try discriminate; [reflexivity|].
+  apply andb_prop in H. destruct H as [Hxy H]. apply N.eqb_eq in Hxy. subst y.
+  f_equal. apply IH, H.
+Qed.
+
+Lemma kval_eqb_eq a b : kval_eqb a b = true -> a = b.
+Proof.
+  destruct a as [|x|sx|m1 d1 n1]; destruct b as [|y|sy|m2 d2 n2]; cbn [kval_eqb]; intros H;
+    try discriminate; try reflexivity.
+  - apply N.eqb_eq in H. subst. reflexivity.
+  - apply bytes_eqb_eq in H. subst. reflexivity.
+  - apply andb_prop in H. destruct H as [H Hn]. apply andb_prop in H. destruct H as [Hm Hd].
+    apply N.eqb_eq in Hm, Hd, Hn. subst. reflexivity.
+Qed.
+
+Lemma kvals_eqb_eq a : forall b, kvals_eqb a b = true -> a = b.
+Proof.
+  induction a as [|x a IH]; intros [|y b] H; cbn [kvals_eqb] in H; try discriminate; [reflexivity|].
+  apply andb_prop in H. destruct H as [Hxy H]. apply kval_eqb_eq in Hxy. subst y.
+  f_equal. apply IH, H.
+Qed.
+
+Lemma srow_eqb_eq (x y : srow) : srow_eqb x y = true -> x = y.
+Proof.
+  destruct x as [k1 p1]; destruct y as [k2 p2]. unfold srow_eqb. cbn [fst snd]. intros H.
+  apply andb_prop in H. destruct H as [Hk Hp].
+  apply kvals_eqb_eq in Hk, Hp. subst. reflexivity.
+Qed.
+
+Lemma remove1_perm x l : forall r, remove1 x l = Some r -> Permutation l (x :: r).
+Proof.
+  induction l as [|y l IH]; intros r H; cbn [remove1] in H; [discriminate|].
+  destruct (srow_eqb x y) eqn:E.
+  - apply srow_eqb_eq in E. inversion H; subst. apply Permutation_refl.
+  - destruct (remove1 x l) as [r'|]; [|discriminate]. inversion H; subst.
+    eapply perm_trans; [apply perm_skip, (IH r' eq_refl)|apply perm_swap].
+Qed.
+
+Theorem sub_bag_sound : forall out inp, sub_bag out inp = true ->
+  exists rest, Permutation inp (out ++ rest).
+Proof.
+  induction out as [|x out IH]; intros inp H.
+  - exists inp. apply Permutation_refl.
+  - cbn [sub_bag] in H. destruct (remove1 x inp) as [inp'|] eqn:E; [|discriminate].
+    destruct (IH inp' H) as [rest Hr]. exists rest.
+    eapply perm_trans; [apply (remove1_perm x inp inp' E)|].
+    cbn [app]. apply perm_skip, Hr.
+Qed.
+
+(* ---------- 7. soundness of check_order_slice ---------- *)
+
+Definition srow_wf (cs : list kcol) (x : srow) : Prop := row_wf cs (fst x).
+Definition keq (cs : list kcol) (a b : srow) : Prop := req cs (fst a) (fst b) = true.
+
+Lemma sle_trans cs a b c : srow_wf cs a -> srow_wf cs b -> srow_wf cs c ->
+  sle cs a b = true -> sle cs b c = true -> sle cs a c = true.
+Proof. unfold srow_wf, sle. apply rle_trans. Qed.
+
+Lemma keq_sle_l cs a b c : srow_wf cs a -> srow_wf cs b -> srow_wf cs c ->
+  keq cs a b -> sle cs a c = sle cs b c.
+Proof.
+  unfold srow_wf, keq, req, sle, rle. intros Ha Hb Hc H.
+  rewrite (row_cmp_eq_l cs (fst a) (fst b) (fst c) Ha Hb Hc); [reflexivity|].
+  destruct (row_cmp cs (fst a) (fst b)); congruence.
+Qed.
+
+Lemma keq_sle_r cs a b c : srow_wf cs a -> srow_wf cs b -> srow_wf cs c ->
+  keq cs a b -> sle cs c a = sle cs c b.
+Proof.
+  unfold srow_wf, keq, req, sle, rle. intros Ha Hb Hc H.
+  rewrite (row_cmp_eq_r cs (fst c) (fst a) (fst b) Hc Ha Hb); [reflexivity|].
+  destruct (row_cmp cs (fst a) (fst b)); congruence.
+Qed.
+
+Lemma keys_eqb_Forall2 cs a : forall b, keys_eqb cs a b = true -> Forall2 (keq cs) a b.
+Proof.
+  induction a as [|x a IH]; intros [|y b] H; cbn [keys_eqb] in H; try discriminate; [constructor|].
+  apply andb_prop in H. destruct H as [Hxy H]. constructor; [exact Hxy|apply IH, H].
+Qed.
+
+Lemma Forall2_length_eq {A B} (R : A -> B -> Prop) l l' : Forall2 R l l' -> length l = length l'.
+Proof. intros H. induction H as [|x y l l' Hxy H IH]; [reflexivity|]. cbn [length]. rewrite IH. reflexivity. Qed.
+
+(* list helpers *)
+Lemma skipn_app_len {A} (l1 l2 : list A) k : length l1 = k -> skipn k (l1 ++ l2) = l2.
+Proof. intros <-. induction l1 as [|x l1 IH]; [reflexivity|exact IH]. Qed.
+
+Lemma firstn_app_len {A} (l1 l2 : list A) k : length l1 = k -> firstn k (l1 ++ l2) = l1.
+Proof. intros <-. induction l1 as [|x l1 IH]; [reflexivity|]. cbn [length app firstn]. rewrite IH. reflexivity. Qed.
+
+Lemma Forall_firstn_ {A} (P : A -> Prop) k : forall l, Forall P l -> Forall P (firstn k l).
+Proof.
+  induction k as [|k IH]; intros l H; [constructor|].
+  destruct l as [|x l]; [constructor|]. inversion H; subst. cbn [firstn]. constructor; [assumption|apply IH; assumption].
+Qed.
+
+Lemma Forall_skipn_ {A} (P : A -> Prop) k : forall l, Forall P l -> Forall P (skipn k l).
+Proof.
+  induction k as [|k IH]; intros l H; [exact H|].
+  destruct l as [|x l]; [constructor|]. inversion H; subst. cbn [skipn]. apply IH; assumption.
+Qed.
+
+(* counting *)
+Definition count (f : srow -> bool) (l : list srow) : nat := length (filter f l).
+
+Lemma count_app f l1 l2 : count f (l1 ++ l2) = count f l1 + count f l2.
+Proof. unfold count. rewrite filter_app, app_length. reflexivity. Qed.
+
+Lemma count_perm f l l' : Permutation l l' -> count f l = count f l'.
+Proof.
+  unfold count. intros H. induction H as [|x l l' H IH|x y l|l l' l'' H1 IH1 H2 IH2].
+  - reflexivity.
+  - cbn [filter]. destruct (f x); cbn [length]; congruence.
+  - cbn [filter]. destruct (f x); destruct (f y); reflexivity.
+  - congruence.
+Qed.
+
+Lemma count_le_length f l : count f l <= length l.
+Proof.
+  unfold count. induction l as [|x l IH]; [apply le_n|].
+  cbn [filter]. destruct (f x); cbn [length]; lia.
+Qed.
+
+Lemma count_all f l : Forall (fun y => f y = true) l -> count f l = length l.
+Proof.
+  unfold count. intros H. induction H as [|x l Hx H IH]; [reflexivity|].
+  cbn [filter]. rewrite Hx. cbn [length]. rewrite IH. reflexivity.
+Qed.
+
+Lemma count_none f l : Forall (fun y => f y = false) l -> count f l = 0.
+Proof.
+  unfold count. intros H. induction H as [|x l Hx H IH]; [reflexivity|].
+  cbn [filter]. rewrite Hx. exact IH.
+Qed.
+
+Section Slice.
+Variable cs : list kcol.
+Let le (a b : srow) : Prop := sle cs a b = true.
+Let wf := srow_wf cs.
+
+Lemma Sorted_StronglySorted_wf l : Forall wf l -> Sorted le l -> StronglySorted le l.
+Proof.
+  induction l as [|x l IH]; intros Hwf Hs; [constructor|].
+  inversion Hwf as [|x' l' Hx Hl]; subst. inversion Hs as [|x' l' Hs' Hhd]; subst.
+  specialize (IH Hl Hs'). constructor; [exact IH|].
+  destruct l as [|y l]; [constructor|].
+  inversion Hhd as [|y' l'' Hxy]; subst. inversion IH as [|y' l'' _ Hy]; subst.
+  inversion Hl as [|y' l'' Hywf Hl']; subst.
+  constructor; [exact Hxy|].
+  rewrite Forall_forall in Hy, Hl' |- *. intros z Hz.
+  apply (sle_trans cs x y z Hx Hywf (Hl' z Hz) Hxy (Hy z Hz)).
+Qed.
+
+Lemma SSorted_app_inv l1 l2 : StronglySorted le (l1 ++ l2) ->
+  StronglySorted le l1 /\ StronglySorted le l2 /\ (forall a b, In a l1 -> In b l2 -> le a b).
+Proof.
+  induction l1 as [|x l1 IH]; intros H.
+  - split; [constructor|]. split; [exact H|]. intros a b [].
+  - cbn [app] in H. inversion H as [|x' l' Hs Hall]; subst.
+    destruct (IH Hs) as (H1 & H2 & H12). apply Forall_app in Hall. destruct Hall as [Hx1 Hx2].
+    split; [constructor; assumption|]. split; [exact H2|].
+    intros a b [<-|Ha] Hb.
+    + rewrite Forall_forall in Hx2. apply Hx2, Hb.
+    + apply H12; assumption.
+Qed.
+
+Lemma SSorted_app l1 l2 : StronglySorted le l1 -> StronglySorted le l2 ->
+  (forall a b, In a l1 -> In b l2 -> le a b) -> StronglySorted le (l1 ++ l2).
+Proof.
+  intros H1 H2 H12. induction H1 as [|x l1 H1 IH Hx]; [exact H2|].
+  cbn [app]. constructor.
+  - apply IH. intros a b Ha Hb. apply H12; [right; exact Ha|exact Hb].
+  - apply Forall_app. split; [exact Hx|].
+    rewrite Forall_forall. intros b Hb. apply H12; [left; reflexivity|exact Hb].
+Qed.
+
+(* a sorted list is a block where f holds followed by a block where it does not,
+   for every f that is downward closed *)
+Lemma sorted_split (f : srow -> bool) l :
+  (forall x y, wf x -> wf y -> le x y -> f y = true -> f x = true) ->
+  Forall wf l -> StronglySorted le l ->
+  exists l1 l2, l = l1 ++ l2 /\ Forall (fun y => f y = true) l1 /\ Forall (fun y => f y = false) l2.
+Proof.
+  intros Hmono. induction l as [|x l IH]; intros Hwf Hs.
+  - exists [], []. repeat split; constructor.
+  - inversion Hwf as [|x' l' Hx Hl]; subst. inversion Hs as [|x' l' Hs' Hall]; subst.
+    destruct (f x) eqn:Efx.
+    + destruct (IH Hl Hs') as (l1 & l2 & -> & F1 & F2).
+      exists (x :: l1), l2. repeat split; [constructor; assumption|assumption].
+    + exists [], (x :: l). repeat split; [constructor|].
+      constructor; [exact Efx|].
+      rewrite Forall_forall in Hall, Hl |- *. intros y Hy.
+      destruct (f y) eqn:Efy; [|reflexivity].
+      rewrite (Hmono x y Hx (Hl y Hy) (Hall y Hy) Efy) in Efx. discriminate.
+Qed.
+
+Lemma keq_transfer (f : srow -> bool) (v : bool) w o :
+  (forall a b, wf a -> wf b -> keq cs a b -> f a = f b) ->
+  Forall2 (keq cs) w o -> Forall wf w -> Forall wf o ->
+  Forall (fun y => f y = v) o -> Forall (fun y => f y = v) w.
+Proof.
+  intros Hf H. induction H as [|a b w o Hab H IH]; intros Hw Ho Hv; [constructor|].
+  inversion Hw as [|a' w' Wa Ww]; inversion Ho as [|b' o' Wb Wo]; inversion Hv as [|b'' o'' Vb Vo]; subst.
+  constructor; [rewrite (Hf a b Wa Wb Hab); exact Vb|apply IH; assumption].
+Qed.
+
+Section Core.
+Variables (s out rest r pre want tail : list srow) (o : srow).
+Hypothesis Hwf_s : Forall wf s.
+Hypothesis Hss : StronglySorted le s.
+Hypothesis Hso : StronglySorted le out.
+Hypothesis Hsr : StronglySorted le r.
+Hypothesis Hperm : Permutation s (out ++ rest).
+Hypothesis Hr : Permutation r rest.
+Hypothesis Hdec : s = pre ++ want ++ tail.
+Hypothesis Hkeys : Forall2 (keq cs) want out.
+Hypothesis Ho : In o out.
+
+Lemma core_wf : Forall wf out /\ Forall wf r /\ wf o /\ Forall wf pre /\ Forall wf want /\ Forall wf tail.
+Proof.
+  pose proof (Permutation_Forall Hperm Hwf_s) as H. apply Forall_app in H. destruct H as [H1 H2].
+  pose proof (Permutation_Forall (Permutation_sym Hr) H2) as H3.
+  pose proof Hwf_s as H4. rewrite Hdec in H4. apply Forall_app in H4. destruct H4 as [H4 H5].
+  apply Forall_app in H5. destruct H5 as [H5 H6].
+  repeat split; try assumption. rewrite Forall_forall in H1. apply H1, Ho.
+Qed.
+
+Lemma core_before : Forall (fun b => sle cs b o = true) (firstn (length pre) r).
+Proof.
+  destruct core_wf as (Wout & Wr & Wo & Wpre & Wwant & Wtail).
+  set (f := fun y : srow => sle cs y o).
+  assert (Hmono : forall x y, wf x -> wf y -> le x y -> f y = true -> f x = true).
+  { intros x y Hx Hy Hxy Hyo. apply (sle_trans cs x y o Hx Hy Wo Hxy Hyo). }
+  assert (Hcong : forall a b, wf a -> wf b -> keq cs a b -> f a = f b).
+  { intros a b Ha Hb Hab. apply (keq_sle_l cs a b o Ha Hb Wo Hab). }
+  destruct (sorted_split f out Hmono Wout Hso) as (o1 & o2 & Eout & Fo1 & Fo2).
+  destruct (sorted_split f r Hmono Wr Hsr) as (r1 & r2 & Er & Fr1 & Fr2).
+  (* o is in the first block of out *)
+  assert (Ho1 : In o o1).
+  { rewrite Eout in Ho. apply in_app_or in Ho. destruct Ho as [H|H]; [exact H|].
+    rewrite Forall_forall in Fo2. specialize (Fo2 o H). unfold f in Fo2.
+    rewrite sle_refl in Fo2. discriminate. }
+  rewrite Eout in Hkeys. apply Forall2_app_inv_r in Hkeys.
+  destruct Hkeys as (w1 & w2 & K1 & K2 & Ewant).
+  rewrite Eout in Wout. apply Forall_app in Wout. destruct Wout as [Wo1 Wo2].
+  rewrite Ewant in Wwant. apply Forall_app in Wwant. destruct Wwant as [Ww1 Ww2].
+  pose proof (keq_transfer f true w1 o1 Hcong K1 Ww1 Wo1 Fo1) as Fw1.
+  (* w1 is non-empty; its head is <= o, and everything in pre is below it *)
+  assert (Fpre : Forall (fun y => f y = true) pre).
+  { destruct o1 as [|y0 o1']; [destruct Ho1|].
+    inversion K1 as [|y y0' w1' o1'' Hy K1']; subst y0' o1'' w1.
+    inversion Fw1 as [|y' w1'' Fy _]; subst.
+    inversion Ww1 as [|y' w1'' Wy _]; subst.
+    rewrite Hdec in Hss. apply SSorted_app_inv in Hss. destruct Hss as (_ & _ & H12).
+    rewrite Forall_forall in Wpre |- *. intros a Ha.
+    apply (Hmono a y (Wpre a Ha) Wy); [|exact Fy].
+    apply H12; [exact Ha|]. cbn [app]. left. reflexivity. }
+  (* count the rows <= o *)
+  assert (Cs : length pre + length o1 <= count f s).
+  { rewrite Hdec, Ewant, !count_app, (count_all f pre Fpre), (count_all f w1 Fw1).
+    rewrite (Forall2_length_eq _ _ _ K1). lia. }
+  assert (Cs' : count f s = length o1 + length r1).
+  { rewrite (count_perm f _ _ Hperm), count_app, <- (count_perm f _ _ Hr), Eout, Er, !count_app.
+    rewrite (count_all f o1 Fo1), (count_none f o2 Fo2), (count_all f r1 Fr1), (count_none f r2 Fr2).
+    lia. }
+  rewrite Er, firstn_app.
+  replace (length pre - length r1) with 0 by lia. cbn [firstn]. rewrite app_nil_r.
+  apply Forall_firstn_. exact Fr1.
+Qed.
+
+Lemma core_after : Forall (fun a => sle cs o a = true) (skipn (length pre) r).
+Proof.
+  destruct core_wf as (Wout & Wr & Wo & Wpre & Wwant & Wtail).
+  set (g := fun y : srow => negb (sle cs o y)).
+  assert (Hmono : forall x y, wf x -> wf y -> le x y -> g y = true -> g x = true).
+  { intros x y Hx Hy Hxy Hyo. unfold g in *. apply negb_true_iff in Hyo. apply negb_true_iff.
+    destruct (sle cs o x) eqn:E; [|reflexivity].
+    rewrite (sle_trans cs o x y Wo Hx Hy E Hxy) in Hyo. discriminate. }
+  assert (Hcong : forall a b, wf a -> wf b -> keq cs a b -> g a = g b).
+  { intros a b Ha Hb Hab. unfold g. rewrite (keq_sle_r cs a b o Ha Hb Wo Hab). reflexivity. }
+  destruct (sorted_split g out Hmono Wout Hso) as (o1 & o2 & Eout & Fo1 & Fo2).
+  destruct (sorted_split g r Hmono Wr Hsr) as (r1 & r2 & Er & Fr1 & Fr2).
+  assert (Ho2 : In o o2).
+  { rewrite Eout in Ho. apply in_app_or in Ho. destruct Ho as [H|H]; [|exact H].
+    rewrite Forall_forall in Fo1. specialize (Fo1 o H). unfold g in Fo1.
+    rewrite sle_refl in Fo1. discriminate. }
+  rewrite Eout in Hkeys. apply Forall2_app_inv_r in Hkeys.
+  destruct Hkeys as (w1 & w2 & K1 & K2 & Ewant).
+  rewrite Eout in Wout. apply Forall_app in Wout. destruct Wout as [Wo1 Wo2].
+  rewrite Ewant in Wwant. apply Forall_app in Wwant. destruct Wwant as [Ww1 Ww2].
+  pose proof (keq_transfer g false w2 o2 Hcong K2 Ww2 Wo2 Fo2) as Fw2.
+  assert (Ftail : Forall (fun y => g y = false) tail).
+  { destruct o2 as [|y0 o2']; [destruct Ho2|].
+    inversion K2 as [|y y0' w2' o2'' Hy K2']; subst y0' o2'' w2.
+    inversion Fw2 as [|y' w2'' Fy _]; subst.
+    inversion Ww2 as [|y' w2'' Wy _]; subst.
+    rewrite Hdec, Ewant in Hss. rewrite <- app_assoc, app_assoc in Hss.
+    apply SSorted_app_inv in Hss. destruct Hss as (_ & Hss2 & _).
+    apply SSorted_app_inv in Hss2. destruct Hss2 as (_ & _ & H12).
+    rewrite Forall_forall in Wtail |- *. intros a Ha.
+    destruct (g a) eqn:Ega; [|reflexivity].
+    rewrite (Hmono y a Wy (Wtail a Ha)) in Fy; [discriminate| |exact Ega].
+    apply H12; [left; reflexivity|exact Ha]. }
+  assert (Cs : count g s <= length pre + length o1).
+  { rewrite Hdec, Ewant, !count_app, (count_none g w2 Fw2), (count_none g tail Ftail).
+    pose proof (count_le_length g pre). pose proof (count_le_length g w1).
+    rewrite <- (Forall2_length_eq _ _ _ K1). lia. }
+  assert (Cs' : count g s = length o1 + length r1).
+  { rewrite (count_perm g _ _ Hperm), count_app, <- (count_perm g _ _ Hr), Eout, Er, !count_app.
+    rewrite (count_all g o1 Fo1), (count_none g o2 Fo2), (count_all g r1 Fr1), (count_none g r2 Fr2).
+    lia. }
+  rewrite Er, skipn_app, (skipn_all2 r1) by lia. cbn [app].
+  apply (Forall_skipn_ _ (length pre - length r1)) in Fr2.
+  rewrite Forall_forall in Fr2 |- *. intros a Ha. specialize (Fr2 a Ha).
+  unfold g in Fr2. apply negb_false_iff in Fr2. exact Fr2.
+Qed.
+End Core.
+End Slice.
